@@ -15,6 +15,10 @@ def std_build(res, release=False, need_harness=True):
 
 
 def prove_obligations(res, theorems):
+    if not theorems:
+        res.notes.append("no property theorem registered yet for %s: this run is correspondence/oracle only" % res.prop)
+        res.proof_details = {}
+        return True
     ok, det = lib.prove(res.prop, theorems)
     for t in theorems:
         res.oblige("T:" + t, "T", ok, "" if ok else (det.get("failed_at") or det.get("coq_error", "")[-300:] or str(det.get("unexpected_axioms") or det.get("forbidden")))[:400])
